@@ -20,7 +20,11 @@ RShape(sh, r) ==
     [] sh = "safe"    -> TSafe(31, r)
     [] sh = "insafe"  -> TSafe(31, TSlice(30, <<r>>))
     [] sh = "svfield" -> TSafe(31, TStruct(30, <<r>>, <<TRUE>>))
-RShapes == {"top", "slice", "mapval", "structE", "structu", "ptr", "deep", "safe", "insafe", "svfield"}
+    \* statically typed containers: []RedactableString, map[RedactableString]RedactableString (as key and as value)
+    [] sh = "tslice"  -> TTSlice(30, <<r, KeyR>>)
+    [] sh = "tmapkey" -> TTMap(30, <<r, KeyR>>)
+    [] sh = "tmapval" -> TTMap(30, <<KeyR, r>>)
+RShapes == {"top", "slice", "mapval", "structE", "structu", "ptr", "deep", "safe", "insafe", "svfield", "tslice", "tmapkey", "tmapval"}
 \* what the statement says the reprint is: the punctuation of the shape around the unchanged redactable
 RWrap(sh, b, plus) ==
   CASE sh = "top"     -> b
@@ -33,6 +37,9 @@ RWrap(sh, b, plus) ==
     [] sh = "safe"    -> b
     [] sh = "insafe"  -> <<91>> \o b \o <<93>>
     [] sh = "svfield" -> <<123>> \o (IF plus THEN <<97, 58>> ELSE <<>>) \o b \o <<125>>
+    [] sh = "tslice"  -> <<91>> \o b \o <<SP, 107, 93>>
+    [] sh = "tmapkey" -> MapOpen \o b \o <<58, 107, 93>>
+    [] sh = "tmapval" -> MapOpen \o <<107, 58>> \o b \o <<93>>
 R0(p) == Out(Sprint(<<TStr(1, p)>>))                             \* a redactable obtained from the library
 JoinOf(d, a, b) == Out(SBRun(<<SPrint(<<TRStr(4, a)>>), SPrint(<<TRStr(5, d)>>), SPrint(<<TRStr(6, b)>>)>>))     \* redact.Join
 ComposeRoots == Pay(IF Slice = "compose" THEN 2 ELSE 1)
@@ -40,7 +47,7 @@ ComposeDelims == {<<44>>, StartM \o <<44>> \o EndM, <<NL>>}
 ComposeExpand(p) ==
   LET r == R0(p) IN
   {Case("Sprintf", f, <<RShape(sh, TRStr(2, r))>>, <<>>) : f \in ComposeFormats, sh \in RShapes}
-  \cup {Case("Sprintf", Fv, <<RShape(sh, TRBytes(2, r))>>, <<>>) : sh \in RShapes}
+  \cup {Case("Sprintf", Fv, <<RShape(sh, TRBytes(2, r))>>, <<>>) : sh \in RShapes \ {"tslice", "tmapkey", "tmapval"}}
   \cup {Case("Sprint", <<>>, <<TRStr(2, r)>>, <<>>)}
   \cup UNION {{Case("Sprintf", <<120>> \o Fv \o <<121>> \o Fs \o <<122>>, <<TRStr(2, r), TRStr(7, R0(q))>>, <<>>),
                Case("Sprint", <<>>, <<TRStr(2, JoinOf(d, r, R0(q)))>>, <<>>),
